@@ -33,7 +33,7 @@ def plan(tier, seed):
         return {'n': 480, 'deadline': 150, 'case_timeout': 120,
                 'floor': {'files_with_invalid_utf8': 1, 'file_history_cases': 1, 'distinct_nontrivial': 20000, 'strings_checked': 60000, 'rejected_by_recogniser': 20000,
                           'accepted_by_both': 3000, 'edit_trunc': 10000, 'edit_del': 5000, 'edit_dup': 5000, 'edit_swap': 3000}}
-    return {'n': 8000, 'deadline': 560, 'case_timeout': 120,
+    return {'n': 9800, 'deadline': 560, 'case_timeout': 120,
             'floor': {'files_with_invalid_utf8': 1, 'file_history_cases': 1, 'distinct_nontrivial': 300000, 'strings_checked': 1000000, 'rejected_by_recogniser': 300000,
                       'accepted_by_both': 150000}}
 
